@@ -21,10 +21,10 @@ DiffSteps(a, b) == {k \in DOMAIN a : k \notin DOMAIN b \/ a[k] # b[k]} \cup (DOM
 Failed(row) ==
     LET ref == row.runs[1][2]
     IN {j \in 2..Len(row.runs) : DiffSteps(ref, row.runs[j][2]) # {}}
-Judge(k) ==
-    LET row == Rows[k]
-        spec == Run(row.acts)
-        want == [s \in DOMAIN spec |-> Want(spec[s])]
+Judge(rows, k) ==
+    LET row == rows[k]
+        spec == TLCEval(Run(row.acts))
+        want == TLCEval([s \in DOMAIN spec |-> Want(spec[s])])
         off == {j \in {1} : DiffSteps(want, row.runs[j][2]) # {}}
         j0 == Min(off)
         k0 == Min(DiffSteps(want, row.runs[j0][2]))
@@ -34,6 +34,7 @@ Judge(k) ==
         mode |-> IF off = {} THEN "" ELSE row.runs[j0][1],
         at |-> IF off = {} THEN 0 ELSE k0,
         want |-> IF off = {} \/ k0 \notin DOMAIN want THEN <<>> ELSE want[k0]]
-Bad == SelectSeq([k \in 1..Len(Rows) |-> Judge(k)], LAMBDA r : r.failed # <<>> \/ r.drift)
-ASSUME JsonSerialize(IOEnv.VF_OUT, [n |-> Len(Rows), bad |-> Bad])
+\* (an operator with a parameter, so that TLC does not evaluate it while it is still processing the constant Rows)
+Bad(rows) == SelectSeq([k \in 1..Len(rows) |-> Judge(rows, k)], LAMBDA r : r.failed # <<>> \/ r.drift)
+ASSUME JsonSerialize(IOEnv.VF_OUT, [n |-> Len(Rows), bad |-> Bad(Rows)])
 =============================================================================
